@@ -195,7 +195,11 @@ impl<T> Pool<T> {
         })?;
         let obj = {
             let mut queue = inner.queue.lock().unwrap();
-            queue.pop().unwrap()
+            queue.pop()
+        };
+        let Some(obj) = obj else {
+            // The pool was closed and emptied after the permit was acquired.
+            return Err(PoolError::Closed);
         };
         permit.forget();
         let _ = inner.available.fetch_sub(1, Ordering::Relaxed);
@@ -234,7 +238,11 @@ impl<T> Pool<T> {
         }?;
         let obj = {
             let mut queue = inner.queue.lock().unwrap();
-            queue.pop().unwrap()
+            queue.pop()
+        };
+        let Some(obj) = obj else {
+            // The pool was closed and emptied after the permit was acquired.
+            return Err(PoolError::Closed);
         };
         permit.forget();
         let _ = inner.available.fetch_sub(1, Ordering::Relaxed);
